@@ -208,7 +208,7 @@ def gen(seed, profile='general'):
             o['ingest_demand'] = 1
 
     vols = [o['data_product_rate'] * k * o['_d'] for o in obs]
-    regime = pick('buffer', {'ample': 72, 'wait': 12, 'tight': 10, 'over': 6})
+    regime = pick('buffer', {'ample': 85, 'wait': 7, 'tight': 5, 'over': 3})
     vmax, vsum = max(vols), sum(vols)
     if regime == 'ample':
         hot_cap = int(vsum / rng.choice([0.2, 0.4, 0.55])) + 1
@@ -287,6 +287,9 @@ def gen(seed, profile='general'):
     if rng.random() < fk.get('F4', 0):
         faults['perm'] = {'seed': rng.randint(0, 10 ** 6)}
 
+    if rng.random() < P.get('overrate', 0.0):
+        o = rng.choice(obs)
+        o['data_product_rate'] = hot_rate + rng.randint(1, 3)
     sc = {'unit': unit, 'machines': machines, 'arrays': arrays, 'max_ingest': max_ingest,
           'hot': {'capacity': hot_cap, 'max_ingest_rate': hot_rate},
           'cold': {'capacity': cold_cap, 'max_data_rate': cold_rate},
@@ -320,7 +323,7 @@ PROFILES = {
     'live': {'buffer': {'ample': 50, 'wait': 25, 'tight': 15, 'over': 10},
              'pattern': {'gaps': 15, 'b2b': 25, 'simul': 30, 'overlap': 30},
              'faults': {'F1': 0.35, 'F3': 0.2, 'F4': 0.3}},
-    'buffer': {'buffer': {'ample': 55, 'wait': 20, 'tight': 20, 'over': 5},
+    'buffer': {'buffer': {'ample': 60, 'wait': 20, 'tight': 16, 'over': 4}, 'overrate': 0.06,
                'pattern': {'b2b': 30, 'overlap': 50, 'simul': 10, 'gaps': 10},
                'nobs': {2: 40, 3: 40, 4: 20}, 'faults': {'F1': 0.3, 'F4': 0.2}},
     'real': {'monitor': 'real', 'dur': {1: 20, 2: 25, 3: 25, 4: 15, 5: 15},
